@@ -13,7 +13,7 @@ RULE_TAGS = ("let", "inst", "def", "have")
 
 
 def _atom(t):
-    if z3.is_const(t) and t.decl().kind() == z3.Z3_OP_UNINTERPRETED:
+    if z3.is_app(t) and t.decl().kind() == z3.Z3_OP_UNINTERPRETED:
         return True
     if z3.is_app(t) and t.decl().kind() == z3.Z3_OP_SELECT:
         return True
